@@ -341,6 +341,26 @@ def outcomes_equal(impl, spec):
     return impl == spec
 
 
+def resolve_hints(im, ref):
+    """`Z:<lo>:<hi|->` tokens (a `size_hint()` answer) in an iterator history are replaced by the reference
+    token `V:<remaining>` when lo <= remaining <= hi: the hint is then consistent with the specification"""
+    if "Z:" not in im:
+        return im
+    a, b = im.split(" "), ref.split(" ")
+    if len(a) != len(b):
+        return im
+    for j, tok in enumerate(a):
+        if tok.startswith("Z:") and b[j].startswith("V:"):
+            try:
+                _, lo, hi = tok.split(":")
+                r = int(b[j][2:])
+                if int(lo) <= r and (hi == "-" or r <= int(hi)):
+                    a[j] = b[j]
+            except ValueError:
+                pass
+    return " ".join(a)
+
+
 def compare(script_lines, impl, model):
     """returns list of disagreement records"""
     dis = []
@@ -361,6 +381,7 @@ def compare(script_lines, impl, model):
             else:
                 m, s = mo, mo
             rec = None
+            im = resolve_hints(im, s)
             if not outcomes_equal(im, s):
                 rec = {"type": "impl-vs-spec", "impl": im[:300], "spec": s[:300], "model": m[:300]}
             elif not (im == m or (s == "F:assertdoc" and m == "F:assertdoc") or s == "-" and im == m):
